@@ -1,23 +1,135 @@
 """C16 -- lazy parameters delay, memoise and stay lexical; strict ones do not.
 
-spec: ZSem (EvArgs wraps arguments at lazy positions as thunks [expression, caller frame]; Force memoises;
+Two oracles, both TLA+:
+
+(1) spec: ZSem (EvArgs wraps arguments at lazy positions as thunks [expression, caller frame]; Force memoises;
       substitute returns the source expression; strict arguments evaluated once, left to right, after the callee)
-bind: every mask {lazy,strict}^{1..3} x variadic tail x routes {direct, alias, parameter, computed callee, apply
-      (array/list), map, tail recursion, forcing after the caller returned (with shadowing locals), erroring
-      argument at a lazy / strict position} x force patterns {none, once, twice, substitute, reverse order};
-      value and effect trace (count and order of argument evaluations) validated by TLC against ZSem.
+    bind (family lazy): every mask {lazy,strict}^{1..3} x variadic tail x routes {direct, alias, parameter, computed
+      callee, apply (array/list), map, tail recursion, forcing after the caller returned (with shadowing locals),
+      erroring argument at a lazy / strict position, re-loaded definitions, and the name of the running function
+      denoting ANOTHER function with the lazy positions complemented where it is called in tail position: a let
+      variable, a parameter, an inner defn in a branch never taken, a re-definition reached from a kept closure}
+      x force patterns {none, once, twice, substitute, reverse order}; value and effect trace (count and order of
+      argument evaluations) validated by TLC against ZSem.
+
+(2) spec: LazyRules (the rules of the property stated over an abstract record of calls: relative to the function
+      that actually received the call, an argument bound -- by position or by NAME -- to a strict parameter is
+      evaluated exactly once before the body and the parameter holds a value; one bound to a lazy parameter is not
+      evaluated at entry, (type? p) is "lazyArg", its evaluation starts only under a force, at most once however
+      the evaluation ended (value, error, a force of itself), in the caller's lexical environment; every force
+      returns that value; substitute returns the source); MCLazyRules: TLC explores a model of one call (all masks,
+      positional / named in every order, succeeding / failing / self-forcing arguments, up to 3 forces in and after
+      the call) with the monitor in lock-step: Sound (nothing a correct interpreter does is rejected) and
+      Sensitive (each of 7 seeded deviations is rejected).
+    bind (family lazy2): instrumented programs -- defn / variadic defn / typed func declarations x masks x call
+      routes (direct, alias, computed, inside a caller that returns, parameter, re-declared, self tail call,
+      tail call to a let variable / parameter / inner defn / re-definition of the same name) x arguments by
+      position or by name (declared and reverse order) x argument expressions (plain, failing, forcing their own
+      promise, infix {..} forms, func declarations) x receivers whose locals are named like builders x force
+      patterns (none, once, twice, substitute, in reverse, from later evaluations once/twice, after a failed
+      force); the host functions record the events, TLC validates every case against LazyRules.
 """
-import semflow
+import collections, json, os
+import vlib, flow, semflow
 
 PROP = "C16"
 
+RULE = ("all masks of lazy/strict parameters (1..3) x variadic tail x 21 call routes x 5 force patterns against ZSem; "
+        "declaration kinds x masks x 12 call routes x positional/named arguments x 6 argument kinds x 9 force patterns "
+        "against LazyRules (both enumerated completely: the same sets in both tiers)")
+
+
+def _kind(cid):
+    """the kind of a case: its call route (and argument kind / naming), without mask and force pattern"""
+    p = cid.split("-")
+    if p[0] == "z2":
+        # z2-<route..>-<decl>-n<k>m<mask>v<v>-<argkind>-<pattern>[-<shadow..>][-fwd|rev]
+        d = next(i for i, x in enumerate(p) if x in ("defn", "func"))
+        named = p[-1] if p[-1] in ("fwd", "rev") else ""
+        shadow = "-".join(p[d + 4:len(p) - (1 if named else 0)])
+        return ("lazy2", "-".join(p[1:d]), p[d], p[d + 2], shadow, "named" if named else "")
+    return ("lazy", "-".join(p[4:-1]))
+
+
+def _thin(out, per_kind=2):
+    """every rejected case was re-executed and confirmed; report per_kind of each kind, note the rest"""
+    seen = collections.Counter()
+    keep, dropped = [], 0
+    for v in sorted(out.violations):
+        k = _kind(v[0]) + (v[2].split(",")[0].strip('" '),)
+        seen[k] += 1
+        if seen[k] <= per_kind:
+            keep.append(v)
+        else:
+            dropped += 1
+            try:
+                os.unlink(v[1])
+            except OSError:
+                pass
+    out.violations = keep
+    if dropped:
+        out.notes.append("%d further confirmed rejections of the same kinds are not listed: %s" % (
+            dropped, ", ".join("%s x%d" % ("/".join(x for x in k if x), n) for k, n in sorted(seen.items()) if n > per_kind)[:1500]))
+
 
 def run():
-    return semflow.run_sem(PROP, "lazy", None, 0, 0,
-                           "all masks of lazy/strict parameters (1..3) x variadic tail x 11 call routes x 5 force patterns "
-                           "(enumerated completely: the same set in both tiers), argument expressions with traced side effects",
-                           semflow.SEM_ASSUMPTIONS + ["typed func declarations are not among the routes"])
+    out = flow.Outcome(PROP)
+    zv = vlib.build_zv()
+    # design audit of the rules: sound on the model of a correct call, sensitive to every seeded deviation
+    flow.mc_runs(out, [{"module": "MCLazyRules.tla", "cfg": "MCLazyRules.cfg", "workers": 1, "timeout": 900}])
+    # (1) the reference interpreter
+    t1 = os.path.join(vlib.scratch(), "lazy.ndjson")
+    vlib.run_zv(zv, "lazy", [], t1)
+    c1, v1 = flow.validate(out, "lazy", "SemTrace.tla", "SemTrace.cfg", t1, zv, timeout=3000, max_confirm=10 ** 6)
+    kinds = collections.Counter((v1[i][0], v1[i][1].strip('"')) for i in c1)
+    judged1 = sum(c for (k, _), c in kinds.items() if k in ("ok", "bad"))
+    if judged1 < max(10, len(c1) // 2):
+        raise vlib.Inconclusive("only %d of %d programs were judged by ZSem" % (judged1, len(c1)))
+    # (2) the rules over the call record
+    t2 = os.path.join(vlib.scratch(), "lazy2.ndjson")
+    vlib.run_zv(zv, "lazy2", [], t2)
+    c2, v2 = flow.validate(out, "lazy2", "LazyRulesTrace.tla", "LazyRulesTrace.cfg", t2, zv, timeout=3000, max_confirm=10 ** 6)
+    _thin(out)
+    kinds2 = collections.Counter((v2[i][0], v2[i][1].split(",")[0].strip('" ')) for i in c2)
+    judged2 = sum(c for (k, _), c in kinds2.items() if k in ("ok", "bad"))
+    if judged2 < len(c2) * 9 // 10:
+        raise vlib.Inconclusive("only %d of %d instrumented programs were judged by LazyRules" % (judged2, len(c2)))
+    events = sum(len(c["evs"]) for c in c2.values())
+    cov = {
+        "states": out.states, "transitions": out.transitions,
+        "traces_validated_against_impl": judged1 + judged2,
+        "programs": len(c1) + len(c2),
+        "zsem_programs": len(c1), "zsem_distinct_texts": len(set(c.get("text", "") for c in c1.values())),
+        "zsem_verdicts": {"%s/%s" % k: c for k, c in sorted(kinds.items())},
+        "rules_programs": len(c2), "rules_events": events,
+        "rules_verdicts": {"%s/%s" % k: c for k, c in sorted(kinds2.items())},
+        "rules_by_route": dict(collections.Counter(i.split("-")[1] for i in c2)),
+        "programs_not_judged": len(c1) - judged1 + len(c2) - judged2,
+        "samples": [{"text": c["text"], "out": c["out"], "fx": c["fx"][:8]} for c in list(c1.values())[:2]] +
+                   [{"text": c["text"], "evs": c["evs"][:14]} for c in list(c2.values())[40:42]],
+        "rule": RULE,
+    }
+    return flow.finish(out, "model_checking", cov, semflow.SEM_ASSUMPTIONS + [
+        "LazyRules judges the events recorded by host functions of instrumented programs; the static description of a "
+        "program (parameters of every function, arguments of every call form) is written by the generator from the text it emits",
+        "the order in which strict arguments are evaluated is judged by ZSem only; apply and map are judged by ZSem only",
+        "self tail calls of typed functions with arguments given by name are not generated (refused with an arity error: "
+        "no argument is mistreated)",
+    ])
 
 
 def replay(path):
+    rec = json.load(open(path))
+    if rec.get("family") == "lazy2" or "evs" in rec.get("case", {}):
+        zv = vlib.build_zv()
+        rp = os.path.join(vlib.scratch(), "r.ndjson")
+        with open(rp, "w") as f:
+            f.write(json.dumps(rec["case"]) + "\n")
+        fresh = os.path.join(vlib.scratch(), "fresh.ndjson")
+        vlib.run_zv1(zv, "lazy2", ["-replay", rp], out=fresh)
+        v, _ = vlib.validate_trace("LazyRulesTrace.tla", "LazyRulesTrace.cfg", fresh)
+        bad = [i for i in v if v[i][0] == "bad"]
+        for i in bad:
+            print("VIOLATION property=%s replay=%s" % (PROP, path))
+        return 1 if bad else 0
     return semflow.replay_sem(PROP, "lazy", path)
